@@ -229,6 +229,11 @@ FIXED = [
     ([("S", ("H", "L", "T")), ("H", ("a",)), ("L", ()), ("L", ("L", "b")), ("T", ("c",)), ("T", ())], "S", False),
     ([("S", ("L", "H")), ("H", ("a",)), ("L", ()), ("L", ("L", "b", "c"))], "S", False),
     ([("S", ("H", "M")), ("H", ("a",)), ("H", ("H", "c")), ("M", ("L",)), ("L", ()), ("L", ("L", "b"))], "S", False),
+    # a non-terminal that is nullable only through pure-epsilon markers, used before it and its markers are defined (FIRST / nullable
+    # fixpoint must keep iterating when a pass changes nullability only)
+    ([("S", ("a", "N", "D")), ("N", ("b",)), ("D", ("P", "c", "b")), ("P", ("O", "I")), ("O", ()), ("I", ())], "S", False),
+    ([("S", ("N", "D")), ("D", ("P", "c")), ("D", ("P", "P", "b")), ("N", ("a",)), ("P", ("O", "I", "O")), ("I", ()), ("O", ())], "S", False),
+    ([("S", ("D", "a")), ("D", ("P", "Q")), ("P", ("O",)), ("Q", ("I", "O")), ("Q", ("b",)), ("O", ()), ("I", ())], "S", False),
 ]
 
 
